@@ -12,7 +12,8 @@ PARTIAL = [
     "wide_refines_map_concurrent_partial: NOT proved. The full statement with any number of foreground tasks is refuted for the code as it "
     "is (theorem wide_refines_map_concurrent_fails = finding F9, reproduced on the real code with two threads on every run); the statement "
     "under the hypothesis 'no write to k between a task's probe-miss of k and its insert-if-vacant, writes to a key issued in batch-epoch order' "
-    "is kept as `def C09_concurrent_statement : Prop` and is not proved",
+    "is kept as `def C09_concurrent_statement : Prop` and is not proved (random walks of the model, 60k schedules with 2-3 tasks, found no "
+    "counterexample under the hypothesis and do find F9 without it; that is a test, not a proof)",
     "set_refines_map is proved for the REPAIRED configuration of the set-cache model (get_snapshot folds chronologically/last-wins, Spilled "
     "iterator keeps draining); for the code as it is the statement is refuted (theorems set_asis_fails_* = findings F10, F17, all reproduced on "
     "the real code through the public API) and what holds is set_refines_map_asis_partial under `getSafe` (at most one staged operation per "
@@ -139,7 +140,7 @@ def run(ctx, boost=1):
         return res
     # 1. restricted stream (inside the hypothesis of the as-is partial theorem): every oracle failure is a violation
     shards = ctx.jobs
-    n = (1500 if ctx.quick() else 12000) * boost
+    n = (2500 if ctx.quick() else 12000) * boost
     jobs = [(ctx, binp, f"r{i}", ctx.seed * 1000 + i, n, [], ["assert-safe"]) for i in range(shards)]
     for o in vlib.shard_map(_shard, jobs, ctx.jobs):
         rep = _collect(res, o, dist)
@@ -163,6 +164,20 @@ def run(ctx, boost=1):
                 res.oracle_failures.append(f)
             elif not f["sig"].startswith("set-"):
                 res.oracle_failures.append(f)
+    # 2b. oracle-only stream with the engine's own set type (Arc<DashSet>) instead of the harness's sorted set
+    def _dash(i):
+        out = os.path.join(ctx.work, f"d{i}")
+        rc, log = vlib.sh([binp, "--seed", str(ctx.seed * 1000 + 900 + i), "--tier", ctx.tier, "--out", out, "--n", str((300 if ctx.quick() else 2000) * boost), "--dash"], timeout=3000)
+        return (out, rc, log)
+    dash_cases = 0
+    for out, rc, log in vlib.shard_map(_dash, list(range(4)), ctx.jobs):
+        if rc != 0:
+            res.disagreements.append({"line": 0, "op": out, "impl": f"harness exit {rc}: {log[-400:]}", "model": ""}); continue
+        rep = json.load(open(os.path.join(out, "report.json")))
+        dash_cases += rep["evaluations"]
+        res.evaluations += rep["evaluations"]
+        res.oracle_failures += rep["oracle_failures"]
+    res.extra["oracle_only_cases_with_DashSet"] = dash_cases
     # 3. canonical replays of the known findings (printed as KNOWN-FINDING only while they still fail)
     canon = {"C09-f10a.txt": "snap", "C09-f10b.txt": "snap", "C09-f10c.txt": "snap", "C09-f13.txt": "spill"}
     for i, (fn, kind) in enumerate(sorted(canon.items())):
